@@ -164,12 +164,73 @@ fn check(c: &Case, ctx: &Ctx) -> Outcome {
 
 const RULE: &str = "generated: file of 2-8 related samples; a non-empty proper subset deleted (names in generated order, on the command line or one per line in a names file, in place or with -o); 20% refusal cases (unknown name added / all names). Oracle: nk --full-info == model (drop columns, drop emptied rows) == nk of ska build of the remaining samples; refusals exit non-zero and leave the file byte-identical. Non-trivial: a refusal case, or (a row disappears and (>=2 non-adjacent columns deleted or names-file route)).";
 
+// ---- tables with row counts on block boundaries, deleted through the CLI ----
+
+#[derive(Clone, Debug, Serialize, Deserialize)]
+pub struct SizedCase {
+    pub wide: bool,
+    pub n: usize,
+    pub del_mask: u32,
+    pub size_sel: u16,
+    /// 0: the surviving rows hit the boundary size, 1: all rows before the delete do
+    pub which: u8,
+    pub gone: usize,
+    pub stride: u16,
+    pub salt: u64,
+}
+
+fn sized_strategy() -> BoxedStrategy<SizedCase> {
+    (any::<bool>(), 2usize..7, any::<u32>(), any::<u16>(), 0u8..2, 1usize..60, any::<u16>(), any::<u64>())
+        .prop_map(|(wide, n, del_mask, size_sel, which, gone, stride, salt)| SizedCase { wide, n, del_mask, size_sel, which, gone, stride, salt })
+        .boxed()
+}
+
+fn check_sized(c: &SizedCase, ctx: &Ctx) -> Outcome {
+    let k = if c.wide { 35 } else { 17 };
+    let n = c.n;
+    // a non-empty proper subset of the samples
+    let mut mask = c.del_mask & ((1u32 << n) - 1);
+    if mask == 0 {
+        mask = 1;
+    }
+    if mask == (1u32 << n) - 1 {
+        mask &= !1;
+    }
+    let size = BOUNDARY_SIZES[gen::idx(c.size_sel, BOUNDARY_SIZES.len())];
+    let (surv, gone) = if c.which == 0 { (size, c.gone) } else { (size - c.gone, c.gone) };
+    let t = sized_table(k, n, mask, surv, gone, c.stride, c.salt);
+    let del_names: Vec<String> = (0..n).filter(|j| mask >> j & 1 == 1).map(|j| t.names[j].clone()).collect();
+    let dir = ctx.case_dir();
+    let r: Result<(), Outcome> = (|| {
+        let f = dir.join("t.skf");
+        if c.wide { save_table::<u128>(&t, k, false, &f, c.salt % 2 == 0) } else { save_table::<u64>(&t, k, false, &f, c.salt % 2 == 0) }.map_err(Outcome::Infra)?;
+        let mut args: Vec<&str> = vec!["delete", "-s", "t.skf", "-o", "out"];
+        args.extend(del_names.iter().map(|s| s.as_str()));
+        must_ok(&run_ska(ctx, &dir, &args), "ska delete -o out")?;
+        let got = nk(ctx, &dir, "out.skf")?;
+        let expected = t.delete(&del_names);
+        if expected.rows.len() != surv {
+            return Err(Outcome::Infra("sized table construction is off".into()));
+        }
+        model::compare_nk(&got, &expected, k, false, Some(k_bits_for(k))).map_err(|m| Outcome::Fail(format!("after delete vs model: {m}")))
+    })();
+    ctx.done(&dir);
+    match r {
+        Err(Outcome::Fail(m)) => Outcome::Fail(format!("k={k} table of {} rows ({surv} with a base in a remaining sample, {gone} only in deleted samples), {n} samples, delete={del_names:?}: {m}", surv + gone)),
+        Err(o) => o,
+        Ok(()) => pass(true, key_of(&(k, n, mask, surv, gone, c.stride, c.salt)), vec![if c.which == 0 { "surviving_rows_on_boundary" } else { "rows_before_delete_on_boundary" }, if surv % 1024 == 0 { "surviving_rows_multiple_of_1024" } else { "other_size" }]),
+    }
+}
+
+const SIZED_RULE: &str = "generated tables written through the public API (k=17 64-bit / k=35 128-bit, 2-6 samples): the number of rows that survive the delete, or the number of rows before it, is one of 255,256,257,1023,1024,1025,2047,2048,2049,3072,4095,4096,4097,8192, and 1-59 rows have bases only in the deleted samples; ska delete -o through the CLI. Oracle: nk --full-info == model (drop columns, drop emptied rows). Every case non-trivial (rows disappear).";
+
 fn stages(tier: Tier) -> Vec<Box<dyn Stage>> {
     vec![gen_stage_show("delete", RULE, tier.pick(2000, 24_000), 200, case_strategy, check, |c| {
         let (_a, s) = gen::materialise_set(&c.set);
         json!({"k": c.set.k, "two_strand": c.set.rc, "delete_idx": del_indices(c, s.len()), "names_file": c.names_file, "in_place": c.in_place, "refusal": c.refusal,
             "samples": s.iter().map(|(n, r)| json!({"name": n, "records": r.iter().map(|x| lossy(x)).collect::<Vec<_>>()})).collect::<Vec<_>>()})
-    })]
+    }),
+    gen_stage_show("sized_tables", SIZED_RULE, tier.pick(160, 2400), 20, sized_strategy, check_sized, |c| serde_json::to_value(c).unwrap())]
 }
 
 pub fn def() -> PropDef {
